@@ -415,6 +415,93 @@ theorem fieldVals_id (o : Obj) : fieldVals o t!"id" = (membersLoose o t!"id").ma
 
 theorem fieldVals_method (o : Obj) : fieldVals o t!"method" = (membersLoose o t!"method").map (·.2) := by
   simp [fieldVals, membersLoose, fold_method]
+theorem f64RoundInt_exact (i : Int) (h : i.natAbs ≤ two53) : f64RoundInt i = i := by
+  cases i with
+  | ofNat n =>
+    have : n ≤ two53 := by simpa [Int.natAbs] using h
+    simp [f64RoundInt, f64RoundNat, this]
+  | negSucc n =>
+    have : n + 1 ≤ two53 := by simpa [Int.natAbs] using h
+    simp [f64RoundInt, f64RoundNat, this, Int.negSucc_eq]
+
+theorem idDemand_nil (o : Obj) (h : membersLoose o t!"id" = []) : idDemand (some (.obj o)) = .null := by
+  simp [idDemand, h]
+theorem idDemand_single (o : Obj) (k : Text) (v : Json) (h : membersLoose o t!"id" = [(k, v)]) :
+    idDemand (some (.obj o)) = if k = t!"id" ∧ wfId v = true then .exact v else .any := by
+  simp [idDemand, h]
+theorem idDemand_many (o : Obj) (a b : Text × Json) (rest : Obj) (h : membersLoose o t!"id" = a :: b :: rest) :
+    idDemand (some (.obj o)) = .any := by
+  simp [idDemand, h]
+
+/-- the id a server echoes satisfies the demand the request's id member(s) create -/
+theorem id_ok (o : Obj) (id' : Json) (h : anyField o t!"id" = some (some id')) (hex : idsExact (some (.obj o))) :
+    idOk (idDemand (some (.obj o))) id' = true := by
+  rw [anyField, fieldVals_id] at h
+  cases hm : membersLoose o t!"id" with
+  | nil => rw [hm] at h; simp [anyFieldAux] at h
+  | cons kv rest =>
+    obtain ⟨k, v⟩ := kv
+    cases rest with
+    | cons b rest' => rw [idDemand_many o _ _ _ hm]; rfl
+    | nil =>
+      rw [idDemand_single o k v hm]
+      by_cases hk : k = t!"id" ∧ wfId v = true
+      · simp only [hk, and_self, if_true]
+        obtain ⟨hk, hw⟩ := hk
+        subst hk
+        rw [hm] at h
+        simp only [List.map_cons, List.map_nil, anyFieldAux] at h
+        have hmem : (t!"id", v) ∈ o := by
+          have : (t!"id", v) ∈ membersLoose o t!"id" := by rw [hm]; simp
+          exact (List.mem_filter.mp this).1
+        cases v with
+        | str s => simp [goDecode] at h; subst h; simp [idOk, idEq]
+        | int i =>
+          have hi := hex t!"id" i hmem (by decide)
+          by_cases hlt : i.natAbs < f64Overflow
+          · simp [goDecode, hlt, f64RoundInt_exact i hi] at h; subst h; simp [idOk, idEq]
+          · simp [goDecode, hlt] at h
+        | _ => simp [wfId] at hw
+      · simp only [hk, if_false]; rfl
+
+theorem requestMethod_single (o : Obj) (k m : Text) (h : membersLoose o t!"method" = [(k, .str m)]) :
+    requestMethod (some (.obj o)) = if k = t!"method" then m else [] := by
+  simp [requestMethod, h]
+
+/-- the method the spec reads off the request is the one the server dispatches on — or the spec reads none -/
+theorem method_ok (o : Obj) (m : Text) (h : strField o t!"method" = some m) :
+    requestMethod (some (.obj o)) = m ∨ requestMethod (some (.obj o)) = [] := by
+  rw [strField, fieldVals_method] at h
+  cases hm : membersLoose o t!"method" with
+  | nil => right; simp [requestMethod, hm]
+  | cons kv rest =>
+    obtain ⟨k, v⟩ := kv
+    cases rest with
+    | cons _ _ => right; simp [requestMethod, hm]
+    | nil =>
+      cases v with
+      | str s =>
+        rw [requestMethod_single o k s hm]
+        rw [hm] at h
+        simp [strFieldAux] at h
+        by_cases hk : k = t!"method"
+        · left; simp [hk, h]
+        · right; simp [hk]
+      | _ => right; simp [requestMethod, hm]
+
+theorem wfResult_nil (m : Text) (r : Json) (h : wfResult m r = true) : wfResult [] r = true := by
+  cases r <;> simp_all [wfResult]
+
+theorem wfMsg_okMsg (req : Option Json) (id r : Json) :
+    wfMsg req (okMsg (some id) r) = (idOk (idDemand req) id && wfResult (requestMethod req) r) := by
+  simp [wfMsg, okMsg, jsonrpcField, version20, keysNodup, hasKey, lookup, reqIs, isStrEq, onlyKeys]
+
+theorem wfMsg_errMsg (req : Option Json) (id : Json) (code : Int) (msg : Text) :
+    wfMsg req (errMsg (some id) code msg) = idOk (idDemand req) id := by
+  simp [wfMsg, errMsg, jsonrpcField, version20, keysNodup, hasKey, lookup, reqIs, isStrEq, onlyKeys, wfError, isInt, isStr]
+
+theorem wfMsg_errMsg_none (req : Option Json) (code : Int) (msg : Text) : wfMsg req (errMsg none code msg) = false := by
+  simp [wfMsg, errMsg, jsonrpcField, version20, keysNodup, hasKey, lookup, reqIs, isStrEq, onlyKeys]
 /-! ## concrete instances (non-vacuity examples and counterexamples of the property files) -/
 
 def objectSchema : Json := .obj [(t!"type", .str t!"object")]
